@@ -127,6 +127,14 @@ func (e *Eval) Prepare(flags ...[]byte) error {
 	}
 
 	//
+	// Forget the result of any earlier call: the compiler appends
+	// to what is already there.
+	//
+	e.instructions = nil
+	e.constants = nil
+	e.functions = make(map[string]environment.UserFunction)
+
+	//
 	// Compile the program to bytecode
 	//
 	err = e.compile(program)
